@@ -100,7 +100,14 @@ class HandleBootloader(Contract):
         """normal return: exactly one unlock, accepted; no PIN change; the connection was re-opened"""
         return (unlocks(g) == unlocks(old.g) + 1 and sel(g.cnt, CMD_CHANGE_PIN) == sel(old.g.cnt, CMD_CHANGE_PIN)
                 and monotone(g, old) and g.conn == old.g.conn + 1)
-    ensures = [unlocked_without_pin_change]
+    @only("C10")
+    def x_only_an_interrupt_follows_a_change_attempt(self, g, old):
+        """"after any change attempt the manager stops instead of carrying on": every exit other than the interrupt
+        (a normal return, a device error, a protocol error) happens with no change in progress and with no byte of a
+        new PIN sent to the device (the unlock itself sends the 8 bytes of the PIN in use, then UNLOCK)"""
+        return (not self.pin._changing and sel(g.cnt, CMD_CHANGE_PIN) == sel(old.g.cnt, CMD_CHANGE_PIN)
+                and sel(g.cnt, CMD_SEND_PIN) <= sel(old.g.cnt, CMD_SEND_PIN) + 8)
+    ensures = [unlocked_without_pin_change, x_only_an_interrupt_follows_a_change_attempt]
 
     def x_frame(g, old): return monotone(g, old) and unlocks(g) <= unlocks(old.g) + 1
     @only("C10")
@@ -121,12 +128,12 @@ class HandleBootloader(Contract):
     C10X = [x_file_changes_only_after_acknowledgement, x_refused_or_failed_change_leaves_pin_untouched,
             x_acknowledged_pin_is_on_disk]
     raises = {
-        PERR: Exc(args=[STR_], post=[x_frame, x_no_file_change]),
+        PERR: Exc(args=[STR_], post=[x_frame, x_no_file_change, x_only_an_interrupt_follows_a_change_attempt]),
         PINT: Exc(post=[x_frame] + C10X),
-        ERR_RESULT: Exc(args=[INT_], post=[x_frame, x_err, x_no_file_change]),
-        ERR_TIMEOUT: Exc(args=[STR_], post=[x_frame, x_timeout, x_no_file_change]),
-        ERR_COMM: Exc(args=[STR_], post=[x_frame, x_no_file_change]),
-        ERR_DONGLE: Exc(args=[STR_], post=[x_frame, x_no_file_change]),
+        ERR_RESULT: Exc(args=[INT_], post=[x_frame, x_err, x_no_file_change, x_only_an_interrupt_follows_a_change_attempt]),
+        ERR_TIMEOUT: Exc(args=[STR_], post=[x_frame, x_timeout, x_no_file_change, x_only_an_interrupt_follows_a_change_attempt]),
+        ERR_COMM: Exc(args=[STR_], post=[x_frame, x_no_file_change, x_only_an_interrupt_follows_a_change_attempt]),
+        ERR_DONGLE: Exc(args=[STR_], post=[x_frame, x_no_file_change, x_only_an_interrupt_follows_a_change_attempt]),
     }
 
 
